@@ -807,6 +807,23 @@ func (a *AE) step(fr *frame, ins ssa.Instruction, e aenv) (dead bool) {
 			return true
 		default:
 			delete(e, x)
+			// a read of a constant table (package-level array that only its initialiser
+			// writes) at a known position
+			if x.Op == token.MUL {
+				if ia, ok := x.X.(*ssa.IndexAddr); ok {
+					if g, ok := ia.X.(*ssa.Global); ok {
+						if iv := a.get(e, ia.Index); iv.k == kInt {
+							if tab, ok := constTableOf(a.w, g); ok {
+								if v, has := tab[iv.i]; has {
+									e[x] = v
+								} else if zero, ok := zeroValOf(x.Type()); ok {
+									e[x] = zero
+								}
+							}
+						}
+					}
+				}
+			}
 		}
 	case *ssa.FieldAddr:
 		v := a.get(e, x.X)
@@ -1078,4 +1095,143 @@ func isPublishSetter(f *ssa.Function) bool {
 	}
 	it, ok := f.Signature.Params().At(0).Type().Underlying().(*types.Interface)
 	return ok && it.NumMethods() == 0
+}
+
+
+// ---- constant tables ----
+
+var constTableMemo = map[*ssa.Global]map[int64]Val{}
+var constTableBad = map[*ssa.Global]bool{}
+
+// constTableOf: g is a package-level array whose only write is its initialiser (a literal
+// built in a local and stored whole, or element stores in the package initialiser) and
+// whose address is only used to index it. The map holds the elements set to a constant;
+// every other position has the zero value.
+func constTableOf(w *World, g *ssa.Global) (map[int64]Val, bool) {
+	if t, ok := constTableMemo[g]; ok {
+		return t, true
+	}
+	if constTableBad[g] {
+		return nil, false
+	}
+	bad := func() (map[int64]Val, bool) { constTableBad[g] = true; return nil, false }
+	if _, isArr := g.Type().(*types.Pointer).Elem().Underlying().(*types.Array); !isArr || g.Pkg == nil {
+		return bad()
+	}
+	tab := map[int64]Val{}
+	collect := func(base ssa.Value) bool {
+		// constant stores through IndexAddr(base, const)
+		refs := base.Referrers()
+		if refs == nil {
+			return true
+		}
+		for _, ref := range *refs {
+			ia, ok := ref.(*ssa.IndexAddr)
+			if !ok || ia.Referrers() == nil {
+				continue
+			}
+			for _, r2 := range *ia.Referrers() {
+				st, ok := r2.(*ssa.Store)
+				if !ok || st.Addr != ssa.Value(ia) {
+					continue
+				}
+				k, isK := ia.Index.(*ssa.Const)
+				c, isC := st.Val.(*ssa.Const)
+				if !isK || !isC {
+					return false
+				}
+				iv, cv := constVal(k), constVal(c)
+				if iv.k != kInt || cv.k == kUnknown {
+					return false
+				}
+				tab[iv.i] = cv
+			}
+		}
+		return true
+	}
+	// every use of g in the module
+	for _, fn := range w.Prog.AllPackages() {
+		_ = fn
+	}
+	var fns []*ssa.Function
+	for _, m := range g.Pkg.Members {
+		if f, ok := m.(*ssa.Function); ok {
+			fns = append(fns, f)
+			fns = append(fns, f.AnonFuncs...)
+		}
+	}
+	for _, f := range w.Funcs {
+		fns = append(fns, f)
+	}
+	seen := map[*ssa.Function]bool{}
+	for _, f := range fns {
+		if seen[f] {
+			continue
+		}
+		seen[f] = true
+		isInit := f.Synthetic != "" && f.Name() == "init"
+		for _, b := range f.Blocks {
+			for _, ins := range b.Instrs {
+				var ops []*ssa.Value
+				for _, op := range ins.Operands(ops) {
+					if op == nil || *op != ssa.Value(g) {
+						continue
+					}
+					switch x := ins.(type) {
+					case *ssa.IndexAddr:
+						// reads are fine; element stores only in the initialiser
+						if x.Referrers() != nil {
+							for _, r2 := range *x.Referrers() {
+								if st, ok := r2.(*ssa.Store); ok && st.Addr == ssa.Value(x) && !isInit {
+									return bad()
+								}
+								if _, isLoad := r2.(*ssa.UnOp); !isLoad {
+									if _, isStore := r2.(*ssa.Store); !isStore {
+										if _, dbg := r2.(*ssa.DebugRef); !dbg {
+											return bad() // the element's address goes elsewhere
+										}
+									}
+								}
+							}
+						}
+					case *ssa.Store:
+						if x.Addr != ssa.Value(g) || !isInit {
+							return bad()
+						}
+						ld, ok := x.Val.(*ssa.UnOp)
+						if !ok {
+							return bad()
+						}
+						al, ok := ld.X.(*ssa.Alloc)
+						if !ok || !collect(al) {
+							return bad()
+						}
+					case *ssa.UnOp, *ssa.DebugRef:
+						// whole-array load / debug info
+					default:
+						return bad()
+					}
+				}
+			}
+		}
+	}
+	if !collect(g) {
+		return bad()
+	}
+	constTableMemo[g] = tab
+	return tab, true
+}
+
+func zeroValOf(t types.Type) (Val, bool) {
+	if b, ok := t.Underlying().(*types.Basic); ok {
+		switch {
+		case b.Info()&types.IsBoolean != 0:
+			return vBool(false), true
+		case b.Info()&types.IsInteger != 0:
+			return vInt(0), true
+		case b.Info()&types.IsString != 0:
+			return Val{k: kStr, s: ""}, true
+		}
+	}
+	return unknown, false
 }
